@@ -390,6 +390,84 @@ fn swap_ix(fx: &Fx, ver: u8, amount: u64, thr: u64, limit: u128, ein: bool, dir:
     }
 }
 
+/// the accounts and data of two_hop_swap (ver 1) / two_hop_swap_v2 (ver 2) over two pool fixtures
+#[allow(clippy::too_many_arguments)]
+fn build_two_hop(ver: u8, f1: &Fx, f2: &Fx, bank0: &Bank, d1: bool, d2: bool, m_in: &MintCfg, m_mid: &MintCfg, m_out: &MintCfg, t_in: anchor_lang::prelude::Pubkey, t_out: anchor_lang::prelude::Pubkey, amount: u64, thr: u64, ein: bool, lim1: u128, lim2: u128) -> (Vec<Meta>, Vec<u8>) {
+    use anchor_lang::ToAccountMetas;
+    let ta1 = f1.swap_arrays(d1);
+    let ta2 = f2.swap_arrays(d2);
+if ver == 2 {
+            let acc = ::whirlpool::accounts::TwoHopSwapV2 {
+                whirlpool_one: f1.pool,
+                whirlpool_two: f2.pool,
+                token_mint_input: m_in.key,
+                token_mint_intermediate: m_mid.key,
+                token_mint_output: m_out.key,
+                token_program_input: m_in.program(),
+                token_program_intermediate: m_mid.program(),
+                token_program_output: m_out.program(),
+                token_owner_account_input: t_in,
+                token_vault_one_input: if d1 { f1.vault_a } else { f1.vault_b },
+                token_vault_one_intermediate: if d1 { f1.vault_b } else { f1.vault_a },
+                token_vault_two_intermediate: if d2 { f2.vault_a } else { f2.vault_b },
+                token_vault_two_output: if d2 { f2.vault_b } else { f2.vault_a },
+                token_owner_account_output: t_out,
+                token_authority: f1.trader,
+                tick_array_one_0: ta1[0],
+                tick_array_one_1: ta1[1],
+                tick_array_one_2: ta1[2],
+                tick_array_two_0: ta2[0],
+                tick_array_two_1: ta2[1],
+                tick_array_two_2: ta2[2],
+                oracle_one: f1.oracle,
+                oracle_two: f2.oracle,
+                memo_program: anchor_spl::memo::ID,
+            };
+            (
+                acc.to_account_metas(None).iter().map(Meta::from).collect(),
+                ::whirlpool::instruction::TwoHopSwapV2 { amount, other_amount_threshold: thr, amount_specified_is_input: ein, a_to_b_one: d1, a_to_b_two: d2, sqrt_price_limit_one: lim1, sqrt_price_limit_two: lim2, remaining_accounts_info: None }.data(),
+            )
+        } else {
+            let acc = ::whirlpool::accounts::TwoHopSwap {
+                token_program: anchor_spl::token::ID,
+                token_authority: f1.trader,
+                whirlpool_one: f1.pool,
+                whirlpool_two: f2.pool,
+                token_owner_account_one_a: f1.trader_a,
+                token_vault_one_a: f1.vault_a,
+                token_owner_account_one_b: f1.trader_b,
+                token_vault_one_b: f1.vault_b,
+                token_owner_account_two_a: f2.trader_a,
+                token_vault_two_a: f2.vault_a,
+                token_owner_account_two_b: f2.trader_b,
+                token_vault_two_b: f2.vault_b,
+                tick_array_one_0: ta1[0],
+                tick_array_one_1: ta1[1],
+                tick_array_one_2: ta1[2],
+                tick_array_two_0: ta2[0],
+                tick_array_two_1: ta2[1],
+                tick_array_two_2: ta2[2],
+                oracle_one: f1.oracle,
+                oracle_two: f2.oracle,
+            };
+            let o1 = !bank0.data(&f1.oracle).is_empty();
+            let o2 = !bank0.data(&f2.oracle).is_empty();
+            (
+                acc.to_account_metas(None)
+                    .iter()
+                    .map(Meta::from)
+                    .map(|mut m| {
+                        if (m.key == f1.oracle && o1) || (m.key == f2.oracle && o2) {
+                            m.writable = true;
+                        }
+                        m
+                    })
+                    .collect(),
+                ::whirlpool::instruction::TwoHopSwap { amount, other_amount_threshold: thr, amount_specified_is_input: ein, a_to_b_one: d1, a_to_b_two: d2, sqrt_price_limit_one: lim1, sqrt_price_limit_two: lim2 }.data(),
+            )
+        }
+}
+
 impl World {
     pub fn x_hop(&self, t: &[&str]) -> XHopOut {
         use anchor_lang::ToAccountMetas;
@@ -429,13 +507,52 @@ impl World {
         // (adaptive-fee pools only: a static-fee pool has no Oracle account)
         let te: u8 = t.get(17).and_then(|x| x.parse().ok()).unwrap_or(0);
         for (bit, oracle) in [(1u8, f1.oracle), (2u8, f2.oracle)] {
-            if te & bit != 0 {
+            if te < 4 && te & bit != 0 {
                 if let Some(a) = f2.bank.accts.get_mut(&oracle) {
                     if a.owner == ::whirlpool::ID && a.data.len() >= 48 {
                         a.data[40..48].copy_from_slice(&(self.now + 1000).to_le_bytes());
                     }
                 }
             }
+        }
+        if te >= 4 {
+            // C17 / C15: both legs name the SAME pool (4) / pool two does not trade the intermediate mint (5):
+            // the instruction must be refused whatever the amounts, and change nothing
+            let (g1, g2, dd2, mo, to) = if te == 4 {
+                let mut g1 = f1.clone();
+                g1.bank = f2.bank.clone();
+                let g2 = g1.clone();
+                (g1, g2, !d1, m_in, trader_account(&m_in.key))
+            } else {
+                let m_alt = MintCfg { key: k(0x37, 9), token2022: false, fee: None, decimals: 6 };
+                let (a2x, b2x) = if d2 { (m_alt, m_out) } else { (m_out, m_alt) };
+                let mut g2 = Fx::pool_only(&now_w2, &a2x, &b2x, 1, f2.bank.clone());
+                add_token_side(&mut g2.bank, &[m_alt], funds);
+                let mut g1 = f1.clone();
+                g1.bank = g2.bank.clone();
+                (g1, g2, d2, m_out, trader_account(&m_out.key))
+            };
+            let b0 = g2.bank.clone();
+            let (metas, data) = build_two_hop(ver, &g1, &g2, &b0, d1, dd2, &m_in, &m_mid, &mo, trader_account(&m_in.key), to, amount, if ein { 0 } else { u64::MAX }, ein, 0, 0);
+            let mut bank = b0.clone();
+            let (res, out) = bank.execute(&metas, &data);
+            return match res {
+                Err(e) => {
+                    let name = err_name(&e, &out.logs);
+                    if bank.accts != b0.accts {
+                        viols.push("a failed two-hop instruction changed account state".to_string());
+                    }
+                    tags.push(if te == 4 { "hop_same_pool_rejected" } else { "hop_wrong_mid_rejected" });
+                    if std::env::var("WPH_LOGS").is_ok() {
+                        eprintln!("xhop shape {} v{}: {}", te, ver, name);
+                    }
+                    XHopOut { line: format!("err {}", name), viols, tags }
+                }
+                Ok(()) => {
+                    viols.push(format!("C17/C15 two_hop_swap v{} succeeded although {}", ver, if te == 4 { "both legs name the same pool" } else { "pool two does not trade the intermediate mint" }));
+                    XHopOut { line: "ACCEPTED".to_string(), viols, tags }
+                }
+            };
         }
         let bank0 = f2.bank.clone();
         let mut f1 = f1;
@@ -495,78 +612,7 @@ impl World {
 
         // ---- the two-hop instruction
         let mut bank = bank0.clone();
-        let ta1 = r.f1.swap_arrays(d1);
-        let ta2 = r.f2.swap_arrays(d2);
-        let (metas, data): (Vec<Meta>, Vec<u8>) = if ver == 2 {
-            let acc = ::whirlpool::accounts::TwoHopSwapV2 {
-                whirlpool_one: r.f1.pool,
-                whirlpool_two: r.f2.pool,
-                token_mint_input: m_in.key,
-                token_mint_intermediate: m_mid.key,
-                token_mint_output: m_out.key,
-                token_program_input: m_in.program(),
-                token_program_intermediate: m_mid.program(),
-                token_program_output: m_out.program(),
-                token_owner_account_input: t_in,
-                token_vault_one_input: if d1 { r.f1.vault_a } else { r.f1.vault_b },
-                token_vault_one_intermediate: if d1 { r.f1.vault_b } else { r.f1.vault_a },
-                token_vault_two_intermediate: if d2 { r.f2.vault_a } else { r.f2.vault_b },
-                token_vault_two_output: if d2 { r.f2.vault_b } else { r.f2.vault_a },
-                token_owner_account_output: t_out,
-                token_authority: r.f1.trader,
-                tick_array_one_0: ta1[0],
-                tick_array_one_1: ta1[1],
-                tick_array_one_2: ta1[2],
-                tick_array_two_0: ta2[0],
-                tick_array_two_1: ta2[1],
-                tick_array_two_2: ta2[2],
-                oracle_one: r.f1.oracle,
-                oracle_two: r.f2.oracle,
-                memo_program: anchor_spl::memo::ID,
-            };
-            (
-                acc.to_account_metas(None).iter().map(Meta::from).collect(),
-                ::whirlpool::instruction::TwoHopSwapV2 { amount, other_amount_threshold: thr, amount_specified_is_input: ein, a_to_b_one: d1, a_to_b_two: d2, sqrt_price_limit_one: lim1, sqrt_price_limit_two: lim2, remaining_accounts_info: None }.data(),
-            )
-        } else {
-            let acc = ::whirlpool::accounts::TwoHopSwap {
-                token_program: anchor_spl::token::ID,
-                token_authority: r.f1.trader,
-                whirlpool_one: r.f1.pool,
-                whirlpool_two: r.f2.pool,
-                token_owner_account_one_a: r.f1.trader_a,
-                token_vault_one_a: r.f1.vault_a,
-                token_owner_account_one_b: r.f1.trader_b,
-                token_vault_one_b: r.f1.vault_b,
-                token_owner_account_two_a: r.f2.trader_a,
-                token_vault_two_a: r.f2.vault_a,
-                token_owner_account_two_b: r.f2.trader_b,
-                token_vault_two_b: r.f2.vault_b,
-                tick_array_one_0: ta1[0],
-                tick_array_one_1: ta1[1],
-                tick_array_one_2: ta1[2],
-                tick_array_two_0: ta2[0],
-                tick_array_two_1: ta2[1],
-                tick_array_two_2: ta2[2],
-                oracle_one: r.f1.oracle,
-                oracle_two: r.f2.oracle,
-            };
-            let o1 = !bank0.data(&r.f1.oracle).is_empty();
-            let o2 = !bank0.data(&r.f2.oracle).is_empty();
-            (
-                acc.to_account_metas(None)
-                    .iter()
-                    .map(Meta::from)
-                    .map(|mut m| {
-                        if (m.key == r.f1.oracle && o1) || (m.key == r.f2.oracle && o2) {
-                            m.writable = true;
-                        }
-                        m
-                    })
-                    .collect(),
-                ::whirlpool::instruction::TwoHopSwap { amount, other_amount_threshold: thr, amount_specified_is_input: ein, a_to_b_one: d1, a_to_b_two: d2, sqrt_price_limit_one: lim1, sqrt_price_limit_two: lim2 }.data(),
-            )
-        };
+        let (metas, data) = build_two_hop(ver, &r.f1, &r.f2, &bank0, d1, d2, &m_in, &m_mid, &m_out, t_in, t_out, amount, thr, ein, lim1, lim2);
         let (res, out) = bank.execute(&metas, &data);
         let line = match &res {
             Err(e) => {
